@@ -76,6 +76,9 @@ type vlfSender struct {
 	hasAt   bool
 	sd      channel.ShutdownOnce
 	paniced string
+	primed  bool // has forwarded something of the source shard (its id table has an entry to acknowledge)
+	retry   bool // holds an acknowledgement in its retry loop
+	retryN  int
 }
 type vlfReceiver struct {
 	k        int
@@ -180,10 +183,16 @@ type vlfSrv struct {
 	broken chan struct{}
 	once   sync.Once
 	inRecv bool
+	acks   chan *adminservice.StreamWorkflowReplicationMessagesRequest // the target's acknowledgements
+	nRecv  int                                                          // Recv calls so far
+	nSend  int                                                          // Send calls so far
 }
 
 func (s *vlfSrv) Context() context.Context { return s.ctx }
 func (s *vlfSrv) Send(*adminservice.StreamWorkflowReplicationMessagesResponse) error {
+	s.h.mu.Lock()
+	s.nSend++
+	s.h.mu.Unlock()
 	select {
 	case <-s.broken:
 		return errors.New("broken")
@@ -194,8 +203,13 @@ func (s *vlfSrv) Send(*adminservice.StreamWorkflowReplicationMessagesResponse) e
 func (s *vlfSrv) Recv() (*adminservice.StreamWorkflowReplicationMessagesRequest, error) {
 	s.h.mu.Lock()
 	s.inRecv = true
+	s.nRecv++
 	s.h.mu.Unlock()
-	<-s.broken
+	select {
+	case a := <-s.acks:
+		return a, nil
+	case <-s.broken:
+	}
 	return nil, errors.New("broken")
 }
 
@@ -365,7 +379,7 @@ func (h *vlfHarness) exec1(c vlfCmd) bool {
 	switch c.A {
 	case "SSet":
 		ctx := context.Background()
-		srv := &vlfSrv{h: h, ctx: ctx, broken: make(chan struct{})}
+		srv := &vlfSrv{h: h, ctx: ctx, broken: make(chan struct{}), acks: make(chan *adminservice.StreamWorkflowReplicationMessagesRequest)}
 		s := &vlfSender{k: c.K, srv: srv, done: make(chan struct{}), pc: "init", sd: channel.NewShutdownOnce()}
 		s.obj = &proxyStreamSender{logger: log.NewNoopLogger(), shardManager: h.sm, sourceShardID: vlfSrc, targetShardID: vlfTgt, directionLabel: "verif"}
 		h.mu.Lock()
@@ -441,7 +455,82 @@ func (h *vlfHarness) exec1(c vlfCmd) bool {
 			return false
 		}
 		s.srv.once.Do(func() { close(s.srv.broken) })
+		if s.retry {
+			// not in Recv: the stream handler's shutdown handle is what tells the acknowledgement loop
+			s.sd.Shutdown()
+			s.retry = false
+		}
 		return true
+	case "SAck", "SAckRetry":
+		// the target acknowledges: the sender translates the watermark and hands it to the source shard's ack channel
+		s := h.snd[c.K]
+		if s == nil || s.pc != "running" || s.retry {
+			return false
+		}
+		select {
+		case <-s.srv.broken:
+			return false
+		default:
+		}
+		if !s.primed {
+			// something of the source shard must have gone through this sender: a watermark-only message on ITS channel
+			h.mu.Lock()
+			n0 := s.srv.nSend
+			h.mu.Unlock()
+			m := RoutedMessage{SourceShard: vlfSrc, Resp: &adminservice.StreamWorkflowReplicationMessagesResponse{Attributes: &adminservice.StreamWorkflowReplicationMessagesResponse_Messages{
+				Messages: &replicationv1.WorkflowReplicationMessages{ExclusiveHighWatermark: 9}}}}
+			select {
+			case s.obj.sendMsgChan <- m:
+			case <-time.After(h.wait):
+				return false
+			}
+			if !h.waitCond(func() bool { return s.srv.nSend > n0 }) {
+				return false
+			}
+			s.primed = true
+		}
+		if !h.waitCond(func() bool { return s.srv.inRecv }) {
+			return false
+		}
+		h.mu.Lock()
+		r0 := s.srv.nRecv
+		h.mu.Unlock()
+		ack := &adminservice.StreamWorkflowReplicationMessagesRequest{Attributes: &adminservice.StreamWorkflowReplicationMessagesRequest_SyncReplicationState{
+			SyncReplicationState: &replicationv1.SyncReplicationState{InclusiveLowWatermark: 1000}}}
+		select {
+		case s.srv.acks <- ack:
+		case <-time.After(h.wait):
+			return false
+		}
+		if c.A == "SAck" {
+			return h.waitCond(func() bool { return s.srv.nRecv > r0 }) // handed over: back in Recv
+		}
+		time.Sleep(60 * time.Millisecond)
+		h.mu.Lock()
+		back := s.srv.nRecv > r0
+		h.mu.Unlock()
+		if back {
+			return false
+		}
+		s.retry, s.retryN = true, r0
+		return true
+	case "SRetry":
+		s := h.snd[c.K]
+		if s == nil || !s.retry {
+			return false
+		}
+		dl := time.Now().Add(3 * time.Second)
+		for time.Now().Before(dl) {
+			h.mu.Lock()
+			back := s.srv.nRecv > s.retryN
+			h.mu.Unlock()
+			if back {
+				s.retry = false
+				return true
+			}
+			time.Sleep(5 * time.Millisecond)
+		}
+		return false
 	case "SClose":
 		s := h.snd[c.K]
 		if s == nil || s.pc != "running" {
@@ -792,6 +881,7 @@ func (h *vlfHarness) finish() {
 	// end everything
 	for _, s := range h.snd {
 		s.srv.once.Do(func() { close(s.srv.broken) })
+		s.sd.Shutdown()
 	}
 	for _, r := range h.rcv {
 		if r.cli != nil {
@@ -821,9 +911,25 @@ func (h *vlfHarness) finish() {
 		}
 	}
 	time.Sleep(2 * time.Millisecond)
-	// goroutine census: proxy stream workers still running
+	// goroutine census: proxy stream workers still running. The sender's Run does not wait for its acknowledgement loop, and
+	// a retry loop sleeps up to 1 s between two looks at its shutdown handle: a worker counts when it is still there after
+	// a bounded wait
 	buf := make([]byte, 1<<20)
-	n := runtime.Stack(buf, true)
+	var n int
+	for dl := time.Now().Add(2500 * time.Millisecond); ; {
+		n = runtime.Stack(buf, true)
+		fresh := 0
+		for _, g := range bytes.Split(buf[:n], []byte("\n\n")) {
+			if (bytes.Contains(g, []byte("proxy.(*proxyStreamSender)")) || bytes.Contains(g, []byte("proxy.(*proxyStreamReceiver)"))) &&
+				!vlfLeaked[string(bytes.SplitN(g, []byte(" ["), 2)[0])] {
+				fresh++
+			}
+		}
+		if fresh == 0 || time.Now().After(dl) {
+			break
+		}
+		time.Sleep(10 * time.Millisecond)
+	}
 	workers := 0
 	kinds := []string{}
 	for _, g := range bytes.Split(buf[:n], []byte("\n\n")) {
